@@ -334,6 +334,66 @@ def junk_cases():
     return out
 
 
+JUNK_TIMING = ['00:01:30', 'junk', '', '1,5', 'nan', '-inf', '1e400', '12 s']
+TIMING_TAGS = ('StoryDuration', 'TextTime', 'MediaTime', 'StoryStarted', 'StoryEnded', 'roEdStart')
+
+
+def with_junk_timing(tree, rng):
+    """The same document with every timing field replaced by something float() / dateutil reject or cannot use."""
+    t = list(tree)
+    if t[0] in TIMING_TAGS:
+        v = rng.choice(JUNK_TIMING)
+        t[2] = v if v != '' else None
+    t[4] = [with_junk_timing(c, rng) for c in t[4]]
+    return t
+
+
+def text_view(ro):
+    """`ro.script` and `ro.body` alone -> {'script', 'body'} or {'crash'}"""
+    from . import impl
+    import warnings
+    try:
+        with warnings.catch_warnings():
+            warnings.filterwarnings('error', category=DeprecationWarning)
+            return {'script': list(ro.script), 'body': body_view(ro.body)}
+    except Exception as e:  # noqa: BLE001
+        return {'crash': impl.err_name(e).replace('crash:', '')}
+
+
+def text_route(oc, docs, rng):
+    """C17 for the running order's own script / body accessors on ANY running order: as generated, and with every
+    timing field turned into junk (script and body have nothing to do with timing metadata)."""
+    from . import impl, lean
+    recs, obs, reqs = [], [], []
+    for lbl, tree in docs:
+        for variant, t in (('as generated', tree), ('junk timing', with_junk_timing(tree, rng))):
+            text = TJ.to_text(t)
+            try:
+                ro = impl.load(text)
+            except Exception:  # noqa: BLE001
+                continue
+            if type(ro).__name__ != 'RunningOrder':
+                continue
+            o = text_view(ro)
+            recs.append({'kind': 'access-text', 'ro_text': text, 'label': f'{lbl} [{variant}]: ro.script / ro.body'})
+            obs.append(o)
+            r = {'op': 'rotext', 'ro': TJ.parse(text)}
+            if 'crash' not in o:
+                r['impl'] = o
+            reqs.append(r)
+    for rec, o, r in zip(recs, obs, lean.run_batch(reqs)):
+        oc.evaluations += 1
+        oc.count('text-route')
+        if not r['dom']:
+            continue
+        oc.in_domain += 1
+        if o != r['model']:
+            oc.disagreements.append(dict(rec, what='ro.script / ro.body', impl=o, model=r['model']))
+        if 'crash' in o or r.get('holds') is not True:
+            oc.failing.append(dict(rec, spec='C17: ro.script / ro.body are the concatenation of the stories\' scripts / bodies, whatever the timing metadata says',
+                                   impl=o, model=r['model']))
+
+
 def expected_send_body(msg):
     """(story ID, body) a roStorySend must arrive as, read neutrally from the message: the children before the
     first storyBody, the storyBody's children (storyItem as item), the children after it; p -> its text or ''."""
@@ -503,6 +563,7 @@ def evaluate(pid, tier, seed):
                     oc.samples.append({'label': lbl, 'ro': rec['ro_text'][:1500], 'view': pi})
     if pid == 'C17':
         spaces_check(oc)
+        text_route(oc, [(lbl, tree) for lbl, tree, _, _ in entries[:(400 if tier == 'quick' else 4000)]], rng)
     if pid == 'C16':
         numbers_check(oc, seed)
     oc.rule = {
@@ -711,6 +772,25 @@ def replay(pid, fl):
     bad = r['dom']['WfAcc'] and (('view' not in view) or not (hs.get(pid, False) if pid != 'C15' else all(hs.get(k_, False) for k_ in ('C15', 'C16', 'C17')))
                                  or project(pid, view) != project(pid, r['model']))
     if bad:
+        print(f'VIOLATION property={pid} replay=(this file): still fails on the current tree')
+        return 1
+    print(f'{pid}: the recorded input no longer fails on the current tree')
+    return 0
+
+
+def replay_text(pid, fl):
+    import random
+    oc = Outcome(pid)
+    from . import impl
+    ro = impl.load(fl['ro_text'])
+    o = text_view(ro)
+    from . import lean
+    r = {'op': 'rotext', 'ro': TJ.parse(fl['ro_text'])}
+    if 'crash' not in o:
+        r['impl'] = o
+    res = lean.run_batch([r])[0]
+    print({'impl': o, 'holds': res.get('holds')})
+    if res['dom'] and ('crash' in o or res.get('holds') is not True):
         print(f'VIOLATION property={pid} replay=(this file): still fails on the current tree')
         return 1
     print(f'{pid}: the recorded input no longer fails on the current tree')
